@@ -78,7 +78,7 @@ def ofInt (n : Int) : IC := ⟨Itv.single n, Cong.ofInt n⟩
 /-- `interval_congruence(interval&&, congruence&&)` -/
 def mk' (i : Itv) (c : Cong) : Option IC := reduce ⟨i, c⟩
 
-/-- `operator+`, `operator-`, `operator*`, `operator|` : component-wise, then `reduce()`
+/-- `operator+`, `operator-`, `operator*`, `operator|`, `operator&` : component-wise, then `reduce()`
     (the other operations of the class have the same shape; the driver evaluates all of them) -/
 def add (p q : IC) : Option IC :=
   match Itv.add p.i q.i with
@@ -90,6 +90,7 @@ def sub (p q : IC) : Option IC :=
   | none => none
 def mul (p q : IC) : Option IC := mk' (Itv.mul p.i q.i) (Cong.mul p.c q.c)
 def join (p q : IC) : Option IC := mk' (Itv.join p.i q.i) (Cong.join p.c q.c)
+def meet (p q : IC) : Option IC := mk' (Itv.meet p.i q.i) (Cong.meet p.c q.c)
 
 end IC
 end Crab
